@@ -522,6 +522,7 @@ PROPS['C18'] = dict(
         ('BuildPath', 'build_path_is_chain_dec', 'The same for building, every construct that contains no Select (Select._build calls the public build of its alternatives, which restarts the path; outside the quantified shapes).'),
         ('PathExact', 'entry_parse_path_is_chain', 'On the public entry point the whole member path of a parse error is a chain of the construct.'),
         ('BuildPath', 'entry_build_path_is_chain', 'Likewise for build().'),
+        ('ValidFacts', 'rawcopy_build_error_passthrough', "RawCopy built from {'value': v}: a failure of the inner construct comes out unchanged - same error class, same path, so the names enclosing the RawCopy and the names inside it both stay."),
         ('PathExact', 'chain_enumerated', 'The chains of a construct are finitely many and computable (chains c): the possible error paths of a format can be listed.'),
         ('PathExact', 'struct_reports_failing_member', 'A Struct reports exactly the error (class and path, unchanged) of the first member that fails, after all earlier members parsed.'),
         ('PathExact', 'sequence_reports_failing_member', 'The same for Sequence.'),
